@@ -3,7 +3,11 @@
 //!
 //! All of the algorithms can also be accessed via [`crate::similarity::Builtins`]
 
+#[cfg(not(feature = "verif"))]
 use std::collections::HashSet;
+#[cfg(feature = "verif")]
+#[allow(unused_imports)]
+use crate::verif::{HashSet, MapNew};
 use std::hash::Hash;
 
 use crate::similarity::{usize_to_f32, Similarity};
